@@ -60,6 +60,10 @@ func newWorld(scratch string) *world {
 	base := filepath.Join(scratch, fmt.Sprintf("c04-%d", os.Getpid()))
 	w := &world{base: base, R0: filepath.Join(append([]string{base}, upDirs...)...)}
 	w.R = w.R0
+
+	// os.Getwd must ask the kernel (it trusts $PWD when that names the cwd)
+	_ = os.Unsetenv("PWD")
+
 	w.k = osfs.NewWithOptions(&osfs.Options{Idm: osidm.New()})
 
 	return w
@@ -463,6 +467,10 @@ func (w *world) run(v avfs.VFS, cs callSpec, q string) fsx.Res {
 		return openRead(v, q)
 	}
 
+	if cs.Enter != 0 {
+		return w.enter(v, q, cs.Enter == 2)
+	}
+
 	r := fsx.Do(v, w.call(cs, q))
 
 	if cs.Name == "EvalSymlinks" && strings.HasPrefix(r.Kind, "other:") && strings.Contains(r.Kind, "too many links") {
@@ -502,6 +510,68 @@ func openRead(v avfs.VFS, p string) (r fsx.Res) {
 	}
 
 	return r
+}
+
+// enter makes what p resolves to the working directory of v - Chdir(p), or
+// Open(p) and File.Chdir on the handle - and asks the questions of enterProbes
+// from inside (see enterProbes). Outcome: the error of Chdir / Open, else ok
+// with the answers to the probes as value (or the error of File.Chdir). The
+// working directory of the mode is restored on v afterwards, whatever happened.
+func (w *world) enter(v avfs.VFS, p string, viaHandle bool) (r fsx.Res) {
+	k, msg := fsx.Guard(func() {
+		if viaHandle {
+			f, err := v.Open(p)
+			if err != nil {
+				r = fsx.Res{Kind: fsx.ErrKind(err), Msg: err.Error()}
+
+				return
+			}
+
+			err = f.Chdir()
+			_ = f.Close()
+
+			if err != nil {
+				r = fsx.Res{Kind: "ok", Val: "File.Chdir=" + fsx.ErrKind(err), Msg: err.Error()}
+
+				return
+			}
+		} else if err := v.Chdir(p); err != nil {
+			r = fsx.Res{Kind: fsx.ErrKind(err), Msg: err.Error()}
+
+			return
+		}
+
+		var ans []string
+
+		for _, c := range enterProbes {
+			ans = append(ans, probeString(c)+"="+fsx.Do(v, c).String())
+		}
+
+		r = fsx.Res{Kind: "ok", Val: strings.Join(ans, " ")}
+	})
+	if k != "" {
+		r = fsx.Res{Kind: k, Msg: msg}
+	}
+
+	var err error
+
+	if k, msg := fsx.Guard(func() { err = v.Chdir(w.cwd()) }); k != "" {
+		return fsx.Res{Kind: k, Msg: "Chdir back to the working directory: " + msg}
+	}
+
+	if err != nil {
+		r.Val += " back=" + fsx.ErrKind(err)
+	}
+
+	return r
+}
+
+func probeString(c fsx.Call) string {
+	if c.A == "" {
+		return c.Op + "()"
+	}
+
+	return c.Op + "(" + c.A + ")"
 }
 
 // ---- classification of a query in the (pristine) kernel tree ----
